@@ -558,6 +558,7 @@ func (t *handshakeTransport) sendKexInit() error {
 
 	}
 
+	verifAdjustKexInit(isServer, t.sessionID == nil, msg)
 	packet := Marshal(msg)
 
 	// writePacket destroys the contents, so save a copy.
